@@ -28,6 +28,12 @@ def saveMany {β : Type} (force : Bool) : Dir β → List (String × β) → Dir
     | (d', true) => (d', true)
     | (d', false) => saveMany force d' rest
 
+/-- `Trajectory.save`: the saver validates its input (`valid`) before it opens anything; an input it rejects raises and touches nothing -/
+def save {β : Type} (valid : Bool) (p : String) (force : Bool) (d : Dir β) (c : β) : Dir β × Bool :=
+  if valid then openWrite p force d c else (d, true)
+/-- the same with a clean-up of the target on a rejected input ("do not leave a truncated file behind") -/
+def saveWithCleanup {β : Type} (valid : Bool) (p : String) (force : Bool) (d : Dir β) (c : β) : Dir β × Bool :=
+  if valid then openWrite p force d c else (d.filter (fun e => !(e.1 == p)), true)
 /-- bytes left in a file that was opened without truncation and written from its start -/
 def overlay (old new : List Nat) : List Nat := new ++ old.drop new.length
 
